@@ -64,6 +64,8 @@ def main(pid, tier, repo=None):
             near = sorted({validation.norm(c["subject"], c["op"], c["other"]) for c in cs if subj in str(c["subject"])})
             ctx.bad(rid, key + "|missing", "ICC consistency check `reject %s` (%s) is missing or changed (found %d of %d; checks on that value now: %s): an "
                     "inconsistent encoding is accepted or panics later" % (cond, why, len(have), n, near or "none"), fn=f)
+    from . import specconst
+    specconst.run(ctx, pid)
     # no unwrap/expect/index panic on the error path: decode_icc returns Result and converts slice errors
     ctx.not_decided("byte equality of the decoded profile with the embedded one for every encoding (value-level round trip); the predictor "
                     "arithmetic and the shuffle permutations")
